@@ -366,6 +366,7 @@ class SimNet:
         self.bind_fail: set = set()
         self.conns: list[SimConn] = []
         self.connect_log: list[tuple] = []
+        self.unresolved_connects: list[tuple] = []   # (host, port, future) of attempts still pending
         self._eph = 50000
         self.losable = losable
         self.default_route = 'refuse'
@@ -411,6 +412,9 @@ class SimNet:
         world = self.world
         loop = world.loop
         future = loop.create_future()
+        entry = (host, port, future)
+        self.unresolved_connects.append(entry)
+        future.add_done_callback(lambda f: self.unresolved_connects.remove(entry))
         addr = self._resolve(host, port)
         self.connect_log.append((round(loop.time(), 6), host, port))
         route = self.routes.get(addr)
